@@ -92,7 +92,7 @@ func (h *Hub) HandleShipHandshakeStateUpdate(ski string, state model.ShipState) 
 		// acting upon the new state is safe
 		go func() {
 			<-time.After(time.Millisecond * 500)
-			h.hubReader.ServicePairingDetailUpdate(ski, pairingDetail)
+			h.notifyPairingDetailUpdate(ski)
 		}()
 	}
 }
